@@ -238,7 +238,7 @@ pub fn make_spec(pool: &Pool, ix: &PoolIndex, seed: u64, kind: RunKind, allow_in
     let f4 = r.chance(0.4) && !ix.cross_texts.is_empty();
     let f6 = r.chance(0.3);
     let f8 = r.chance(0.3);
-    let f9 = r.chance(0.25);
+    let f9 = r.chance(0.15);
     let f10 = r.chance(0.2);
     // experiment knob (never set by the registered checks): SC_DISABLE_FAULTS=F6,F8,F9,F10
     let off = std::env::var("SC_DISABLE_FAULTS").unwrap_or_default();
@@ -456,8 +456,8 @@ pub fn make_spec(pool: &Pool, ix: &PoolIndex, seed: u64, kind: RunKind, allow_in
             // the caller's stack depth at the moment of the call: most calls from the thread's base, some from a frame
             // kilobytes to megabytes further down (the library must not care where on the stack its caller lives)
             for k in 0..ncalls {
-                if r.chance(if ncalls > 100 { 0.02 } else { 0.25 }) {
-                    ds.push((k as u32, [32u32, 64, 256, 512, 1200, 1200, 2048, 4096, 8192][r.below(9)]));
+                if r.chance(if ncalls > 100 { 0.01 } else { 0.2 }) {
+                    ds.push((k as u32, [32u32, 64, 256, 512, 1100, 1300, 2048, 4096][r.below(8)]));
                 }
             }
         }
